@@ -290,12 +290,15 @@ Definition stream (recs : list (list N)) (pad : list N) : list N :=
 Lemma frame_all_bytes body : rec_ok body -> all_bytes (frame body).
 Proof. intros (_ & H & _). apply all_bytes_app; [apply write_varint_all_bytes|exact H]. Qed.
 
-Lemma stream_all_bytes recs pad : Forall rec_ok recs -> pad_ok pad -> all_bytes (stream recs pad).
+Lemma stream_all_bytes' recs pad : Forall rec_ok recs -> all_bytes pad -> all_bytes (stream recs pad).
 Proof.
-  intros Hr (Hp & _). unfold stream. apply all_bytes_app; [|exact Hp].
+  intros Hr Hp. unfold stream. apply all_bytes_app; [|exact Hp].
   induction Hr as [|b rs Hb _ IH]; [constructor|]. cbn [map concat].
   apply all_bytes_app; [apply frame_all_bytes, Hb|exact IH].
 Qed.
+
+Lemma stream_all_bytes recs pad : Forall rec_ok recs -> pad_ok pad -> all_bytes (stream recs pad).
+Proof. intros Hr (Hp & _). apply stream_all_bytes'; assumption. Qed.
 
 Lemma frame_length_pos body : 1 <= length (frame body).
 Proof.
